@@ -18,7 +18,8 @@ META = {
     "outside_claim": ["more than 3 notes / 2 bars of onsets in the lattice sweep", "odd onsets (the greedy rest decomposition rejects e.g. 9 = 8+1; "
                       "the tokeniser's accepted grid is read as even ticks)", "custom step_sizes / time_signature_range / ppqn",
                       "total duration of a piece whose last note sustains across, or starts on, the final bar line (the statement can be read both ways)"],
-    "stubs": ["np.digitize ite-sum", "int()/float() shadowed", "logging disabled"],
+    "stubs": ["np.digitize ite-sum", "int()/float() shadowed", "logging disabled",
+              "mutable default arguments of the tokeniser's methods are emptied at the start of every path (a path stands for a fresh process)"],
 }
 
 FLAGS = list(itertools.product([True, False], repeat=4))
